@@ -340,11 +340,60 @@ def run_operators(res: Result, dim):
                     res.nontrivial += 1
 
 
+def run_keyword_forms(res: Result, dim):
+    """every argument passed by its documented name (in reverse order) gives the same value and type as the positional call"""
+    from ..catalogue import KWARGS, kwcall
+
+    for op in OPS:
+        if dim not in op.dims or op.name not in KWARGS or op.variant in ("beta", "gamma"):
+            continue
+        sc = scalars_for(op)
+        dimBs = [None] if op.other is None else ([dim] if op.other == "same" else [d for d in op.other])
+        for dimB in dimBs:
+            for ba in BK:
+                for sa in (L.CART[dim], L.SYSTEMS[dim][-1]):
+                    fa = "momentum" if (op.momentum_only or sa != L.CART[dim]) else "generic"
+                    va = operand(ba, dim, sa, fa, "a")
+                    others = []
+                    if dimB is not None:
+                        if "boost" in op.name and dimB == 3:
+                            vb = operand("OBJ" if ba in ("OBJ", "AKR") else ba, 3, L.CART[3], "generic", "a").scale(0.0625)
+                        else:
+                            vb = operand("OBJ" if ba in ("OBJ", "AKR") else ba, dimB, L.SYSTEMS[dimB][-1] if sa == L.CART[dim] else L.CART[dimB], "generic", "b")
+                        others = [vb]
+                    res.states += 1
+                    res.transitions += 2
+                    res.evaluations += 1
+                    case = {"op": "__operators__", "keyword_form": op.key, "dimA": dim, "dimB": dimB, "ba": ba, "sysA": list(sa)}
+                    cls = f"keyword_form|{op.key}|{dim}D|{ba}"
+                    try:
+                        m = op.call(va, others, sc)
+                    except Exception:  # noqa: BLE001
+                        res.count("positional_form_raises")
+                        continue
+                    res.traces += 1
+                    try:
+                        o = kwcall(op, va, others, sc)
+                    except Exception as e:  # noqa: BLE001
+                        res.violation(cls + f"|raises|{type(e).__name__}", f"{op.name} called with its documented keyword names raised {type(e).__name__}: {str(e).strip()[:140]}; the positional call returns", case)
+                        continue
+                    do, dm = describe(o), describe(m)
+                    if do != dm if do[0] == "vec" else do[0] != dm[0]:
+                        res.violation(cls + "|type", f"{op.name} with keyword arguments returned {do}, positionally {dm}", case)
+                    elif do[0] == "vec" and B.result_rows(o)[3] != B.result_rows(m)[3]:
+                        res.violation(cls + "|value", f"{op.name} with keyword arguments returned {B.result_rows(o)[3]}, positionally {B.result_rows(m)[3]}", case)
+                    elif do[0] != "vec" and B.scalar_values(o)[0] != B.scalar_values(m)[0]:
+                        res.violation(cls + "|value", f"{op.name} with keyword arguments returned {B.scalar_values(o)[0]}, positionally {B.scalar_values(m)[0]}", case)
+                    else:
+                        res.nontrivial += 1
+
+
 def run_shard(shard, tier):
     res = Result()
     if shard["op"] == "__operators__":
         run_operators(res, shard["dimA"])
-        res.sample({"operators": "+ - * / @ == != neg pos abs **2", "dim": shard["dimA"], "backend_pairings": 16})
+        run_keyword_forms(res, shard["dimA"])
+        res.sample({"operators": "+ - * / @ == != neg pos abs ** (2, 3, 0.5, -1), NumPy-scalar / 0-d / array factors on either side; keyword forms of every method", "dim": shard["dimA"], "backend_pairings": 16})
         return res
     op = BY_KEY[shard["op"]]
     run_op(res, op, shard["dimA"], shard["dimB"], tier)
@@ -361,7 +410,9 @@ def finalize(total, tier, complete):
 
 def replay(case):
     res = Result()
-    if case["op"] == "__operators__":
+    if case["op"] == "__operators__" and case.get("keyword_form"):
+        run_keyword_forms(res, case["dimA"])
+    elif case["op"] == "__operators__":
         run_operators(res, case["dimA"])
         return res
     if case.get("like"):
